@@ -243,6 +243,7 @@ pub struct Inner {
 	/// owned groups: for every lock id, the id of the owned group it lives in (or u32::MAX)
 	pub group_of: Vec<u32>,
 	pub trace_cap: usize,
+	pub ops_after_abort: u32,
 }
 
 pub struct Exec {
@@ -326,7 +327,8 @@ impl Exec {
 				table_version: 0,
 				retry_frames: Vec::new(),
 				group_of: vec![u32::MAX; nlocks],
-				trace_cap: 20_000,
+				trace_cap: 6_000,
+				ops_after_abort: 0,
 			}),
 			cv: Condvar::new(),
 		})
@@ -603,7 +605,10 @@ impl Exec {
 	fn raw_op_inner(&self, tid: Tid, lid: Lid, op: Op) -> Decision {
 		let mut g = self.lock();
 		if g.abort {
-			return if op.is_blocking() {
+			// a thread that keeps issuing non-blocking operations after the
+			// abort (a try-spin) must be unwound as well
+			g.ops_after_abort += 1;
+			return if op.is_blocking() || g.ops_after_abort > 2000 {
 				Decision::PanicAbort
 			} else {
 				Decision::Done(!op.is_acquire())
